@@ -408,14 +408,18 @@ func (d *DataStore) prepareDataUpdateSet(dataOffset int, res ResultSet, columns 
 			case interface2int64(resRow[lastCheckResIdx]) != prep.DataRow.dataInt64[lastCheckDataIdx]:
 				// last_check has changed -> always do a full update
 				prep.FullUpdate = true
+			case prep.DataRow.checkChangedIntValues(dataOffset, resRow, columns):
+				// values the core calculates when it is asked change without a new last_update, ex.: in_check_period
+				prep.FullUpdate = true
 			default:
 				// check both, last_check and last_update to catch up very fast checks which finish within the same second
 				continue
 			}
 		case lastUpdateResIdx >= 0:
-			if interface2int64(resRow[lastUpdateResIdx]) == prep.DataRow.dataInt64[lastUpdateDataIdx] {
+			if interface2int64(resRow[lastUpdateResIdx]) == prep.DataRow.dataInt64[lastUpdateDataIdx] &&
+				!prep.DataRow.checkChangedIntValues(dataOffset, resRow, columns) {
 				// if there is only a last_update column, we simply trust the core if an update is required
-				// skip update completely
+				// skip update completely unless a value changed which the core calculates when it is asked, ex.: in_check_period
 				continue
 			}
 			// last_update has changed -> always do a full update
